@@ -708,32 +708,33 @@ def governing_config(ck, rule):
 
 
 def arg_forwarding(ck, rule):
-    """C15.R1 (argument part): the numpy-style arguments of each function reach the kernel unchanged
-    (kwargs['axis'] = axis, or passed by keyword to the wrapper)."""
+    """C15.R1 (argument part): the numpy-style arguments of each function reach the computation unchanged: on every path to the wrapper
+    call the entry kwargs[<name>] (assignment, kwargs.update(name=...)) or the keyword passed to the wrapper is the parameter itself."""
     prog = ck.prog
     fwd = ("axis", "axes", "offset", "axis1", "axis2", "a_min", "a_max", "newshape", "order")
     n = 0
     for f, w, call in public_functions(prog):
-        for p in f.params:
-            if p not in fwd:
+        ps = [p for p in f.params if p in fwd]
+        if not ps:
+            continue
+        for pf in fpaths(prog, f):
+            ces = [ce for ce in pf.calls if ce.raw is call]
+            if not ces:
                 continue
-            n += 1
-            stores = []
-            for node in ast.walk(f.node):
-                if isinstance(node, ast.Assign):
-                    for t in node.targets:
-                        if isinstance(t, ast.Subscript) and dotted(t.value) == "kwargs" and const_str(t.slice) == p:
-                            stores.append(node)
-            direct = kw(call, p)
-            if stores:
-                good = all(dotted(s.value) == p for s in stores)
-                ck.check(good, rule, f, "%s forwards its %s argument unchanged to the computation" % (f.name, p), "kwargs[%r] = %s" % (p, src(stores[0].value)), stores[0],
-                         "the caller's %s is replaced (e.g. axis=None silently becomes another axis)" % p)
-            elif direct is not None:
-                ck.check(dotted(direct) == p, rule, f, "%s forwards its %s argument unchanged" % (f.name, p), "%s=%s" % (p, src(direct)), call)
-            else:
-                # used by a nested kernel through closure?
-                used = any(isinstance(nn, ast.Name) and nn.id == p for g in f.nested.values() for nn in ast.walk(g.node))
-                ck.check(used, rule, f, "%s uses its %s argument" % (f.name, p), "%s never reaches the computation" % p, f.node)
+            ce = ces[0]
+            for p in ps:
+                n += 1
+                stores = [st for st in pf.stores if isinstance(st.target, ast.Subscript) and st.path == "kwargs" and const_str(st.sub) == p]
+                direct = kw(ce.call, p)
+                if stores:
+                    v = stores[-1].value
+                    ck.check(dotted(v) == p, rule, f, "%s forwards its %s argument unchanged to the computation" % (f.name, p), "kwargs[%r] = %s" % (p, src(v)[:50]), stores[-1].stmt,
+                             "the caller's %s is replaced (e.g. axis=None silently becomes another axis)" % p)
+                elif direct is not None:
+                    ck.check(dotted(direct) == p, rule, f, "%s forwards its %s argument unchanged" % (f.name, p), "%s=%s" % (p, src(direct)[:50]), call)
+                else:
+                    used = any(isinstance(nn, ast.Name) and nn.id == p for g in f.nested.values() for nn in ast.walk(g.node))
+                    ck.check(used, rule, f, "%s uses its %s argument" % (f.name, p), "%s never reaches the computation" % p, f.node)
+            break
     if n < 10:
         raise AnalysisError("only %d forwarded numpy arguments found" % n)
